@@ -237,6 +237,9 @@ FAMILIES = {
     "smart_quotes": (rep("\"a\" 'b' "), ["process_inlines", "smartquotes"], ["typographer"]),
     "replacements": (rep("(c) -- ... +- "), ["replace", "replace_rare", "replace_scoped"], ["typographer"]),
     "linkify_text": (rep("http://a.b/c "), ["linkify"], ["linkify"]),
+    "link_label_balanced_brackets": (lambda n: "[" + "[" * (n // 2) + "a" + "]" * (n // 2) + "](/url)\n", ["link"], []),
+    "link_label_balanced_brackets_ref": (lambda n: "[r]: /u\n\n[t " + "[" * (n // 2) + "a" + "]" * (n // 2) + " t][r]\n", ["link"], []),
+    "image_label_balanced_brackets": (lambda n: "![" + "[" * (n // 2) + "a" + "]" * (n // 2) + "](/s)\n", ["image"], []),
     # many separate blocks that each begin with an unclosed bracket (every one is offered to the reference-definition rule)
     "open_bracket_paragraphs": (rep("[a\n\n"), ["reference"], []),
     "open_bracket_items": (rep("- [a\n"), ["reference"], []),
